@@ -183,13 +183,11 @@ def _takeover(ctx, T):
                 if fb is b:
                     epoch_writes.append((bb, i, s))
                 sl = fdu.slice_operand(s["rv"]["a"]) if s["rv"]["k"] == "use" else None
-                good = sl is not None and (sl.has_call("MetaStore::bump_global_epoch") or "new_epoch" in sl.captures)
+                from ..lib import captures_with
+                good = sl is not None and (sl.has_call("MetaStore::bump_global_epoch") or captures_with(F, fb, sl, lambda v: v.has_call("MetaStore::bump_global_epoch")))
                 ctx.check(good, "C06.D2", "reissue-epoch-origin:%s#%d" % ("fn" if fb is b else "closure", fam_epoch_writes), site(fb, bb, i),
                           ok="re-issued migration epoch = bumped global epoch", bad="re-issued migration epoch does not come from bump_global_epoch()")
-    # a captured new_epoch must itself be the bumped epoch in the parent
-    ne = b.local_by_name("new_epoch")
-    if ne is not None:
-        ctx.check(du.slice_local(ne).has_call("MetaStore::bump_global_epoch"), "C06.D2", "new_epoch-is-bumped", site(b), ok="new_epoch = bump_global_epoch()", bad="new_epoch is not the bumped global epoch")
+    # (a captured epoch variable is resolved to the parent's local above: it must itself be the bumped epoch)
     ctx.floor("C06.D2", "migration epoch writes in takeover_master (incl. closures)", fam_epoch_writes, 2)
     # second pass: every entry whose src or dst position was collected is re-issued: contains() tests on the collected set
     contains = sum(len(calls_to(fb, "HashSet::contains")) for fb in fam)
@@ -479,8 +477,9 @@ def _balance(ctx):
     guards = []
     for c in F.children(b):
         cdu = DefUse(c)
-        has_failed = any("failed_proxies" in cdu.slice_operand(t["args"][0]).captures for bb, t in calls_to(c, "HashSet::contains"))
-        has_rep = any("failures" in cdu.slice_operand(t["args"][0]).captures for bb, t in calls_to(c, "HashMap::contains_key"))
+        from ..lib import captures_with
+        has_failed = any(captures_with(F, c, cdu.slice_operand(t["args"][0]), lambda v: ("broker::store::MetaStore", "failed_proxies") in v.fields) for bb, t in calls_to(c, "HashSet::contains"))
+        has_rep = any(captures_with(F, c, cdu.slice_operand(t["args"][0]), lambda v: ("broker::store::MetaStore", "failures") in v.fields) for bb, t in calls_to(c, "HashMap::contains_key"))
         if has_failed or has_rep:
             guards.append((c, has_failed, has_rep))
     if not ctx.floor("C06.D5", "failure guard closure in balance_masters", len(guards), 1):
@@ -490,10 +489,7 @@ def _balance(ctx):
     ctx.check(has_failed and has_rep, "C06.D5", "guard-consults-both", site(g),
               ok="guard looks at failed_proxies and at pending failure reports", bad="guard consults failed_proxies=%s failures=%s: a proxy that is only %s can be re-promoted" % (has_failed, has_rep, "reported" if not has_rep else "marked failed"))
     # captured sets are the store's
-    for nm, fld in (("failed_proxies", "failed_proxies"), ("failures", "failures")):
-        l = b.local_by_name(nm)
-        if l is not None:
-            ctx.check(("broker::store::MetaStore", fld) in du.slice_local(l).fields, "C06.D5", "guard-source:" + nm, site(b), ok="%s = store.%s" % (nm, fld), bad="%s is not the store's %s" % (nm, fld))
+    # (the captured sets are resolved to the store's fields above, independent of their variable names)
     # closure truth table
     cF = calls_to(g, "HashSet::contains"); cR = calls_to(g, "HashMap::contains_key")
     trues = [bb for bb, i, s in g.assigns() if s["place"]["l"] == 0 and s["rv"]["k"] == "use" and "c" in s["rv"]["a"] and s["rv"]["a"]["c"].get("int") == 1]
